@@ -134,7 +134,7 @@ def extract(repo):
         mod = importlib.import_module(type(lang).__module__)
         calls = []
 
-        def fake(tokens, expression, followed_by=None, _calls=calls):
+        def fake(tokens, expression, followed_by=None, *args, _calls=calls, **kwargs):
             _calls.append((expression, followed_by))
             return []
         if not hasattr(mod, "get_headers"):
